@@ -55,13 +55,16 @@ func (w *World) exitCB(task string, cs *connState) {
 	w.loopTasks[task]--
 	if cs != nil {
 		cs.inCB = false
+		vsched.Release(&cs.pub)
 	}
 }
 
 func (h *handler) OnBoot(eng gnet.Engine) gnet.Action {
+	defer vsched.Restore(vsched.EnterHarness())
 	w := h.w
 	w.eng = eng
 	w.booted = true
+	vsched.Release(&w.pubEng) // the application keeps the handle where its other goroutines find it
 	w.bootCount++
 	w.logf("OnBoot")
 	if w.p.Stop.Source == "boot" {
@@ -72,6 +75,7 @@ func (h *handler) OnBoot(eng gnet.Engine) gnet.Action {
 }
 
 func (h *handler) OnShutdown(eng gnet.Engine) {
+	defer vsched.Restore(vsched.EnterHarness())
 	w := h.w
 	w.shutdownCount++
 	w.logf("OnShutdown #%d", w.shutdownCount)
@@ -81,6 +85,7 @@ func (h *handler) OnShutdown(eng gnet.Engine) {
 }
 
 func (h *handler) OnTick() (time.Duration, gnet.Action) {
+	defer vsched.Restore(vsched.EnterHarness())
 	w := h.w
 	w.tickCount++
 	if w.runDone {
@@ -113,6 +118,7 @@ func (w *World) markLocalAll() {
 }
 
 func (h *handler) OnOpen(c gnet.Conn) (out []byte, action gnet.Action) {
+	defer vsched.Restore(vsched.EnterHarness())
 	w := h.w
 	fd := c.Fd()
 	sk := w.k.SockOfFd(fd)
@@ -150,6 +156,7 @@ func (h *handler) OnOpen(c gnet.Conn) (out []byte, action gnet.Action) {
 	task := w.enterCB("OnOpen", cs)
 	defer w.exitCB(task, cs)
 	cs.opened = true
+	vsched.Release(&cs.pub) // from here on other goroutines of the application may know the connection
 	w.openedN++
 	w.countChanged()
 	if ra := c.RemoteAddr(); ra != nil {
@@ -233,6 +240,7 @@ func (w *World) clientAction(cs *connState) bool {
 }
 
 func (h *handler) OnClose(c gnet.Conn, err error) (action gnet.Action) {
+	defer vsched.Restore(vsched.EnterHarness())
 	w := h.w
 	cs := w.byConn[c]
 	if cs == nil {
@@ -334,6 +342,7 @@ func (w *World) faultTouched(cs *connState) bool {
 }
 
 func (h *handler) OnTraffic(c gnet.Conn) (action gnet.Action) {
+	defer vsched.Restore(vsched.EnterHarness())
 	w := h.w
 	if w.p.UDP != nil {
 		return w.onTrafficUDP(c)
@@ -386,6 +395,10 @@ func (h *handler) OnTraffic(c gnet.Conn) (action gnet.Action) {
 	if cs.nTraffic < len(cs.cp.Traffic) {
 		step = &cs.cp.Traffic[cs.nTraffic]
 	}
+	if w.safeCtxConn(cs.idx) {
+		// the loop's side of the safe-context accessors, while goroutines of the application use them too
+		w.safeCtxOps(cs, c, 2*cs.nTraffic+1+cs.nTraffic%2, 0)
+	}
 	cs.nTraffic++
 	if step == nil {
 		// default: consume everything with Next(-1)
@@ -406,7 +419,11 @@ func (h *handler) OnTraffic(c gnet.Conn) (action gnet.Action) {
 	if step.WakeSelf {
 		cs.wakesDue++
 		id := w.newAsync("wake", cs.idx, -1)
-		err := c.Wake(func(c gnet.Conn, err error) error { w.asyncDone(id, c, err); return nil })
+		err := c.Wake(func(c gnet.Conn, err error) error {
+			defer vsched.Restore(vsched.EnterHarness())
+			w.asyncDone(id, c, err)
+			return nil
+		})
 		w.asyncIssued(id, err)
 		if err != nil {
 			cs.wakesDue--
@@ -454,6 +471,7 @@ type scriptWriter struct {
 }
 
 func (s *scriptWriter) Write(p []byte) (int, error) {
+	defer vsched.Restore(vsched.EnterHarness())
 	n := len(p)
 	if s.acc >= 0 && n > s.acc {
 		n = s.acc
@@ -476,6 +494,7 @@ type echoWriter struct {
 }
 
 func (e *echoWriter) Write(p []byte) (int, error) {
+	defer vsched.Restore(vsched.EnterHarness())
 	w, cs := e.w, e.cs
 	keep := append([]byte(nil), p...)
 	w.inCall[cs.task]++
@@ -680,6 +699,7 @@ type scriptReader struct {
 }
 
 func (r *scriptReader) Read(p []byte) (int, error) {
+	defer vsched.Restore(vsched.EnterHarness())
 	if len(r.data) == 0 {
 		return 0, io.EOF
 	}
@@ -781,6 +801,7 @@ func (w *World) doWrite(cs *connState, op *WOp, where string) {
 		aid := w.newAsync("asyncwrite", cs.idx, -1)
 		w.asyncs[aid].execAt = id
 		err := c.AsyncWrite(data, func(c gnet.Conn, err error) error {
+			defer vsched.Restore(vsched.EnterHarness())
 			w.asyncWriteDone(aid, cs, id, op.N, c, err)
 			scribble(data) // the operation has taken effect: the buffer is the caller's again
 			return nil
@@ -801,6 +822,7 @@ func (w *World) doWrite(cs *connState, op *WOp, where string) {
 		}
 		aid := w.newAsync("asyncwritev", cs.idx, -1)
 		err := c.AsyncWritev(bs, func(c gnet.Conn, err error) error {
+			defer vsched.Restore(vsched.EnterHarness())
 			w.asyncWriteDone(aid, cs, id, total, c, err)
 			scribble(data)
 			return nil
